@@ -1,0 +1,63 @@
+//go:build verif
+
+// Contracts for package similarity, checked by /verif/bin/govc (comment-only file).
+// Floats are treated as mathematical reals here (rounding and overflow to Inf are not modelled).
+package similarity
+
+//@ fileprops C17
+
+//@ spec fn idfspec(n real, N real) real = ln(1.0 + (N - n) + 0.5/(n + 0.5))
+//@ spec fn idfmsg(n real, N real) real = ln(1.0 + (N - n + 0.5)/(n + 0.5))
+//@ spec fn ninv(k1 real, b real, avgdl real, dl real) real = 1.0/(k1*((1.0 - b) + b*dl/avgdl))
+//@ spec fn tfspec(k1 real, b real, avgdl real, dl real, f real) real = 1.0 - 1.0/(1.0 + f*ninv(k1, b, avgdl, dl))
+//@ spec fn tfmsg(k1 real, b real, avgdl real, dl real, f real) real = f/(f + k1*(1.0 - b + b*dl/avgdl))
+//@ spec fn score(w real, k1 real, b real, avgdl real, dl real, f real) real = w - w/(1.0 + f*ninv(k1, b, avgdl, dl))
+
+//@ func BM25Similarity.Idf
+//@   ensures docFreq <= docCount ==> result == idfspec(real(docFreq), real(docCount))
+
+// the idf node: value must equal the formula in its message (generated obligation "message-formula")
+//@ func BM25Similarity.IdfExplainTerm
+//@   at call Idf: assume docFreq <= docCount
+//@   ensures result != nil
+
+//@ func BM25Scorer.Score
+//@   ensures result == score(b.weight, b.k1, b.b, b.avgDocLen, real(f32bits(norm)), real(freq))
+
+//@ func NewBM25Scorer
+//@   ensures result != nil && result.weight == boost * idf.Value && result.boost == boost && result.k1 == k1
+//@   ensures result.b == b && result.avgDocLen == avgDocLen && result.idf == idf
+
+//@ func BM25Scorer.explainTf
+//@   requires b.k1 > 0.0 && 0.0 <= b.b && b.b <= 1.0 && b.avgDocLen > 0.0 && real(f32bits(norm)) >= 1.0 && freq >= 1
+//@   ensures result != nil && result.Value == tfspec(b.k1, b.b, b.avgDocLen, real(f32bits(norm)), real(freq))
+
+// value of the explanation == the score returned without explanation
+//@ func BM25Scorer.Explain
+//@   requires b.k1 > 0.0 && 0.0 <= b.b && b.b <= 1.0 && b.avgDocLen > 0.0 && real(f32bits(norm)) >= 1.0 && freq >= 1
+//@   ensures result != nil && result.Value == score(b.weight, b.k1, b.b, b.avgDocLen, real(f32bits(norm)), real(freq))
+
+//@ func ConstantScorer.Score
+//@   ensures result == c
+//@ func ConstantScorer.Explain
+//@   ensures result != nil && result.Value == c
+
+// ---- laws over the spec functions (code-free) ----
+//@ lemma score_positive: forall w real, k1 real, b real, avgdl real, dl real, f real ::
+//@   w > 0.0 && k1 > 0.0 && 0.0 <= b && b <= 1.0 && avgdl > 0.0 && dl >= 1.0 && f >= 1.0 ==> score(w, k1, b, avgdl, dl, f) > 0.0
+//@ lemma score_increases_with_freq: forall w real, k1 real, b real, avgdl real, dl real, f real, g real ::
+//@   w > 0.0 && k1 > 0.0 && 0.0 <= b && b <= 1.0 && avgdl > 0.0 && dl >= 1.0 && f >= 1.0 && f < g ==>
+//@   score(w, k1, b, avgdl, dl, f) < score(w, k1, b, avgdl, dl, g)
+//@ lemma score_decreases_with_length: forall w real, k1 real, b real, avgdl real, dl real, dm real, f real ::
+//@   w > 0.0 && k1 > 0.0 && 0.0 < b && b <= 1.0 && avgdl > 0.0 && dl >= 1.0 && dl < dm && f >= 1.0 ==>
+//@   score(w, k1, b, avgdl, dl, f) > score(w, k1, b, avgdl, dm, f)
+//@ lemma score_boost_linear: forall c real, w real, k1 real, b real, avgdl real, dl real, f real ::
+//@   k1 > 0.0 && 0.0 <= b && b <= 1.0 && avgdl > 0.0 && dl >= 1.0 && f >= 1.0 ==>
+//@   score(c*w, k1, b, avgdl, dl, f) == c*score(w, k1, b, avgdl, dl, f)
+//@ lemma score_is_weight_times_tf: forall w real, k1 real, b real, avgdl real, dl real, f real ::
+//@   k1 > 0.0 && 0.0 <= b && b <= 1.0 && avgdl > 0.0 && dl >= 1.0 && f >= 1.0 ==>
+//@   score(w, k1, b, avgdl, dl, f) == w*tfspec(k1, b, avgdl, dl, f)
+//@ lemma tf_message_formula: forall k1 real, b real, avgdl real, dl real, f real ::
+//@   k1 > 0.0 && 0.0 <= b && b <= 1.0 && avgdl > 0.0 && dl >= 1.0 && f >= 1.0 ==> tfspec(k1, b, avgdl, dl, f) == tfmsg(k1, b, avgdl, dl, f)
+//@ lemma idf_positive uses=ln_mono,ln_one: forall n real, N real :: 0.0 < n && n <= N ==> idfspec(n, N) > 0.0
+//@ lemma idf_rarer_weighs_more uses=ln_mono,ln_one: forall n real, m real, N real :: 0.0 < n && n < m && m <= N ==> idfspec(n, N) > idfspec(m, N)
